@@ -336,8 +336,9 @@ def clear_typing_caches():
 
 
 def exec_source(source: str, name: str = None) -> types.ModuleType:
-    if "Union[" in source[len(PRELUDE) :] if source.startswith(PRELUDE) else True:
-        clear_typing_caches()
+    # always: besides union order, typing caches generic aliases over *string* forward references
+    # (List["O4"]) together with the class they were first resolved to, in another generated module
+    clear_typing_caches()
     n = next(_counter)
     name = name or f"vfgen_{n}"
     filename = f"<{name}>"
